@@ -537,6 +537,18 @@ def get_offsets(s, tyname):
     return out
 
 
+def extents_of(ctx, ir, R, kname):
+    """the symbols of the stored extents of an ActualArray3D<T>, read off what size() returns (no offset is assumed)"""
+    sz = ir.summary(R, 'ActualArray3D::size', kname, A3D)
+    if sz is None:
+        return None
+    try:
+        d = [sz.value('out[%d]' % o) for o in (0, 4, 8)]
+        return d if all(x.is_Symbol for x in d) else None
+    except (Undecided, KeyError):
+        return None
+
+
 def check_formulas(ctx, ir):
     R = 'R-C17-3'
     n = 0
@@ -611,10 +623,12 @@ def check_formulas(ctx, ir):
                 'product of the three components of size()')
         except (Undecided, KeyError) as e:
             ctx.undecided(R, 'SubBoxArray3D::size', str(e), A3D)
+    adims_f = adims
     # ---- the address computed by ActualArray3D::get
     for name, tyname, stride in (('K_get', 'f32', 4), ('K_get_d', 'f64', 8)):
         inst = 'ActualArray3D<%s>::get address' % ('float' if stride == 4 else 'double')
         s = ir.summary(R, inst, name, A3D, **ir.get_opts('float' if stride == 4 else 'double'))
+        adims = adims_f if stride == 4 else extents_of(ctx, ir, R, 'K_actual_size_d')     # the layout depends on the element type
         if s is None or adims is None:
             continue
         n += 1
@@ -646,7 +660,7 @@ def check_formulas(ctx, ir):
         except Undecided as e:
             ctx.undecided(R, inst, str(e), A3D)
     ctx.floor(R, n, 20, 'formula instances in %s' % IR_DRIVER)
-    return adims
+    return {'float': adims_f, 'double': extents_of(ctx, ir, R, 'K_actual_size_d')}
 
 
 # ============================================================================================
@@ -1467,6 +1481,17 @@ def check_adaptors(ctx, tu):
             if mname == 'set':
                 n += 1
                 env, stmts, rets = fn_statements(tu, f)
+                # bookkeeping calls on *this that do not touch the cell storage (e.g. a change notification) may accompany the store
+                def bookkeeping(st):
+                    e_ = tu.strip(st)
+                    if e_ is None or e_.get('kind') != 'CXXMemberCallExpr':
+                        return False
+                    _, o_, _a = tu.call_parts(e_)
+                    c_ = tu.callee_fn(e_)
+                    if o_ is None or not tu.is_this(o_) or c_ is None or tu.body(c_) is None:
+                        return False
+                    return not any(x_.get('kind') == 'MemberExpr' and x_.get('name') == 'value' for x_ in tu.walk(tu.body(c_)))
+                stmts = [st for st in stmts if not bookkeeping(st)]
                 if len(stmts) != 1 or rets:
                     ctx.undecided(R, inst, 'body is not a single assignment', tu.fn_loc(f))
                     continue
@@ -1782,6 +1807,51 @@ def monotone_conversion(src, dst):
     return None
 
 
+def check_whole_volume_range(ctx, tu, f, R):
+    """getValueRange() of the base class must be computed from the current cells: the base class is shared by the adaptors, whose
+    cells change when *another* object (the array they wrap) is written, so a result kept in the object is stale for them"""
+    inst = f['q'].replace('rkcommon::array3D::', '') + '()'
+    key = '%s|%s|Array3D::getValueRange()|' % (R, A3D)
+    body = tu.body(f)
+    written = {}
+    for x in tu.walk(body):
+        if x.get('kind') in ('BinaryOperator', 'CompoundAssignOperator') and x.get('opcode', '').endswith('=') and \
+                x.get('opcode') not in ('==', '!=', '<=', '>=') and tu.kids(x):
+            l_ = tu.strip(tu.kids(x)[0])
+            if l_ is not None and l_.get('kind') == 'MemberExpr' and tu.kids(l_) and tu.is_this(tu.kids(l_)[0]):
+                written[l_.get('name')] = x
+        if x.get('kind') == 'CXXOperatorCallExpr' and strip_targs(tu.sd(x).get('q', '')).endswith('operator='):
+            ks_ = tu.kids(x)
+            l_ = tu.strip(ks_[1]) if len(ks_) > 1 else None
+            if l_ is not None and l_.get('kind') == 'MemberExpr' and tu.kids(l_) and tu.is_this(tu.kids(l_)[0]):
+                written[l_.get('name')] = x
+    returned = set()
+    for x in tu.walk(body):
+        if x.get('kind') == 'ReturnStmt' and tu.kids(x):
+            for y in tu.walk(x):
+                if y.get('kind') == 'MemberExpr' and tu.kids(y) and tu.is_this(tu.kids(y)[0]):
+                    returned.add(y.get('name'))
+    cached = sorted(returned & set(written))
+    if cached:
+        views = sorted({strip_targs(g['q']).split('::')[-2] for g in tu.functions.values()
+                        if not g['dep'] and g['q'].endswith('::get') and delegate_field(tu, g)[0]})
+        ctx.violation(R, inst, 'returns the member `%s`, which an earlier call of this function stored (memoised result): the base class is '
+                      'also the base of the views %s, whose cells are those of *another* array - writing that array does not invalidate the '
+                      'view\'s cached range, so a later query returns bounds of values that are no longer there; the range has to be '
+                      'recomputed from get() on every query' % (cached[0], ', '.join(views) or '(adaptors)'), tu.loc(written[cached[0]]),
+                      key=key + 'memoised')
+        return
+    env, stmts, rets = fn_statements(tu, f)
+    if not stmts and len(rets) == 1:
+        t = drop_casts(nf(tu, rets[0], env))
+        zero = lambda z: z[0] == 'ctor' and all(a_ == ('int', 0) for a_ in z[2]) and len(z[2]) in (1, 3)
+        if t[0] == 'call' and strip_targs(t[1]).endswith('Array3D::getValueRange') and len(t[3]) == 2 and zero(t[3][0]) and \
+                t[3][1] in (('call', 'rkcommon::array3D::Array3D::size', ('this',), ()),):
+            ctx.ok(R, inst, 'getValueRange(vec3i(0), size()) recomputed on every call', tu.fn_loc(f))
+            return
+    ctx.undecided(R, inst, 'whole-volume overload is not `return getValueRange(vec3i(0), size())`', tu.fn_loc(f))
+
+
 def check_value_range_override(ctx, tu, f, R):
     """an adaptor that answers getValueRange itself must still bound the values its own get() returns"""
     cls = strip_targs(f['q']).split('::')[-2]
@@ -1886,12 +1956,50 @@ def functor_value_range(tu, f, body):
     return ('undecided', 'member `%s` of the functor is updated by something other than range_t::extend' % fld)
 
 
+def z_slab_region(tu, call, a0, a1, pb, pe, env):
+    """for_each over the z-layer (begin.x, begin.y, z) .. (end.x, end.y, z + 1) with z = begin.z + k, executed for every k of a
+    tasking::parallel_for(end.z - begin.z, ...): together the layers are exactly [begin, end)"""
+    if not (a0[0] == 'ctor' and a1[0] == 'ctor' and len(a0[2]) == 3 and len(a1[2]) == 3):
+        return False
+    if a0[2][:2] != (('mem', pb, 'x'), ('mem', pb, 'y')) or a1[2][:2] != (('mem', pe, 'x'), ('mem', pe, 'y')):
+        return False
+    Z = a0[2][2]
+    if a1[2][2] != op_nf('+', [Z, ('int', 1)]):
+        return False
+    # enclosing parallel construct and its index parameter
+    p_ = call
+    lam = None
+    for _ in range(40):
+        q_ = tu.par(p_)
+        if q_ is None:
+            return False
+        if q_.get('kind') == 'LambdaExpr':
+            lam = q_
+        if q_.get('kind') == 'CallExpr' and strip_targs(tu.sd(q_).get('q', '')).startswith('rkcommon::tasking::parallel_for') and lam is not None:
+            _, _, pargs = tu.call_parts(q_)
+            if len(pargs) != 2:
+                return False
+            cnt = drop_casts(nf(tu, pargs[0], env))
+            if cnt != ('op', '-', (('mem', pe, 'z'), ('mem', pb, 'z'))):
+                return False
+            op_fn = tu.functions.get(tu.sd(lam).get('op'))
+            if op_fn is None or len(op_fn.get('params', [])) != 1:
+                return False
+            k_ = ('ref', 'ParmVarDecl', op_fn['params'][0]['name'])
+            return Z == op_nf('+', [('mem', pb, 'z'), k_])
+        p_ = q_
+    return False
+
+
 def check_value_range(ctx, tu):
     R = 'R-C17-6'
     ctx.describe(R, 'getValueRange: after each visited value t the running range satisfies lower <= t <= upper (extend(), two independent '
                     'tests, or if / else-if on a range that already holds a value)')
     n = 0
     for f in find_fns(tu, r'^rkcommon::array3D::\w+<.*>::getValueRange$'):
+        if len(f['params']) == 0 and strip_targs(f['q']).split('::')[-2] == 'Array3D':
+            check_whole_volume_range(ctx, tu, f, R)
+            continue
         if len(f['params']) != 2:
             continue
         if strip_targs(f['q']).split('::')[-2] != 'Array3D':
@@ -1901,6 +2009,43 @@ def check_value_range(ctx, tu):
         inst = '%s' % f['q'].replace('rkcommon::array3D::', '')
         key = '%s|%s|Array3D::getValueRange|' % (R, A3D)
         body = tu.body(f)
+        # the region that is scanned must be the one that was asked for: get() is virtual and only some arrays clamp
+        env_r = {}
+        region_bad = region_und = None
+        for d_ in tu.walk(body):
+            if d_.get('kind') == 'VarDecl' and 'id' in d_ and d_['id'] not in env_r and tu.kids(d_) and \
+                    'range_t<' not in d_.get('type', {}).get('qualType', '') and tu.kids(d_)[-1].get('kind') != 'LambdaExpr':
+                env_r[d_['id']] = nf(tu, tu.kids(d_)[-1], env_r)
+        pb, pe = (('ref', 'ParmVarDecl', p_['name']) for p_ in f['params'])
+        for x in tu.walk(body):
+            if x.get('kind') == 'CallExpr' and strip_targs(tu.sd(x).get('q', '')) == 'rkcommon::array3D::for_each' and 'id' in x:
+                _, _, fargs = tu.call_parts(x)
+                if len(fargs) != 3:
+                    continue
+                a0, a1 = drop_casts(nf(tu, fargs[0], env_r)), drop_casts(nf(tu, fargs[1], env_r))
+                if (a0, a1) == (pb, pe):
+                    continue
+                if z_slab_region(tu, x, a0, a1, pb, pe, env_r):
+                    continue
+                txt = repr((a0, a1))
+                if '::size' in txt or "'max'" in txt or "'min'" in txt or 'math::max' in txt or 'math::min' in txt or 'clamp' in txt:
+                    region_bad = (x, a0, a1)
+                else:
+                    region_und = (x, a0, a1)
+        if region_bad is not None:
+            x, a0, a1 = region_bad
+            ctx.violation(R, inst, 'scans for_each(%s, %s) instead of the requested region [begin, end): the region is restricted to the '
+                          'extent of the array on the ground that get() clamps, but get() is virtual and the shifted / sub-box views do not '
+                          'clamp (they wrap resp. offset), so for a region reaching beyond the extent values of the region are left out '
+                          'and the result no longer bounds them' % (show(a0)[:70], show(a1)[:70]), tu.loc(x), key=key + 'region-clamped')
+            continue
+        def ok_(msg):
+            # a decided update rule does not make up for a scan over an unrecognised region
+            if region_und is not None:
+                ctx.undecided(R, inst, 'scans for_each(%s, %s): not recognisably the requested region [begin, end)'
+                              % (show(region_und[1])[:60], show(region_und[2])[:60]), tu.fn_loc(f))
+            else:
+                ctx.ok(R, inst, msg, tu.fn_loc(f))
         # the running range: a local of type range_t
         rv = None
         ranges = {}
@@ -1920,7 +2065,7 @@ def check_value_range(ctx, tu):
             if verdict is None:
                 ctx.undecided(R, inst, 'no local range_t found', tu.fn_loc(f))
             elif verdict[0] == 'ok':
-                ctx.ok(R, inst, verdict[1], tu.fn_loc(f))
+                ok_(verdict[1])
             elif verdict[0] == 'violation':
                 ctx.violation(R, inst, verdict[1], tu.fn_loc(f), key=key + verdict[2])
             else:
@@ -2027,8 +2172,8 @@ def check_value_range(ctx, tu):
                           % (rv.get('name'), tu.show(x)[:60], cq.split('::')[-1]), tu.loc(x), key=key + 'unsynchronised-merge')
             continue
         if extends and not assigns:
-            ctx.ok(R, inst, 'every visited value goes through range_t::extend (min / max on both bounds); seed: %s%s'
-                   % (seed, '; %d merge(s) into the shared result under a lock' % locked if locked else ''), tu.fn_loc(f))
+            ok_('every visited value goes through range_t::extend (min / max on both bounds); seed: %s%s'
+                   % (seed, '; %d merge(s) into the shared result under a lock' % locked if locked else ''))
             continue
         if not assigns:
             ctx.undecided(R, inst, 'no update of the running range found', tu.fn_loc(f))
@@ -2090,10 +2235,9 @@ def check_value_range(ctx, tu):
         if form is None or len(assigns) != 2 or extends:
             ctx.undecided(R, inst, 'the update of the running range is not a recognised min/max form', tu.fn_loc(f))
         elif form[0] == 'independent':
-            ctx.ok(R, inst, 'both bounds are tested independently for every value; seed: %s' % seed, tu.fn_loc(f))
+            ok_('both bounds are tested independently for every value; seed: %s' % seed)
         elif seed == 'point':
-            ctx.ok(R, inst, 'if / else-if update on a range seeded with a value (lower <= upper holds, so a new minimum cannot exceed upper)',
-                   tu.fn_loc(f))
+            ok_('if / else-if update on a range seeded with a value (lower <= upper holds, so a new minimum cannot exceed upper)')
         elif seed == 'empty':
             ctx.violation(R, inst, 'the running range starts empty (lower = +inf > upper = -inf) and is updated by `if (t < lower) lower = t; '
                           'else if (upper < t) upper = t;`: the else-branch is skipped whenever t lowers the minimum, which is only harmless '
@@ -2123,13 +2267,14 @@ def simple_guard(lits):
     return True
 
 
-def check_get_clamps(ctx, ir, adims):
+def check_get_clamps(ctx, ir, adims_by):
     """every path and select case of the address computed by get() against the per-axis definition
     clamp(c, 0, dims.c - 1) for all three axes at once (27 region combinations)"""
     R = 'R-C17-5'
     for name, tyname, stride, tn in (('K_get', 'f32', 4, 'float'), ('K_get_d', 'f64', 8, 'double')):
         inst = 'ActualArray3D<%s>::get clamping' % tn
         s = ir.summary(R, inst, name, A3D, **ir.get_opts(tn))
+        adims = (adims_by or {}).get(tn)
         if s is None or adims is None:
             continue
         try:
